@@ -229,7 +229,13 @@ class Generator(TreeListener):
         self.entered_classes.pop()
 
     def exitArray(self, tree):
-        self.src[tree] = [self.src[e] for e in tree.values]
+        values = [self.get_mx(e) for e in tree.values]
+        if any(isinstance(v, ca.MX) for v in values) and not any(
+            isinstance(v, list) for v in values
+        ):
+            # One-dimensional array constructor with symbolic entries, e.g. {x, 2 * y}
+            values = ca.vertcat(*values)
+        self.src[tree] = values
 
     def exitPrimary(self, tree):
         self.src[tree] = tree.value
